@@ -540,6 +540,147 @@ theorem edgeBetween_undirected_mod {g : Genome W} {netId : Int} {net : Net W} (h
         rw [← hA, ← hB]
         cases uN.outgoing.find? (fun l => idAt net l.dst == some v) <;> rfl
 
+/-! ### `From` / `To` with control nodes -/
+
+theorem filter_map_map {α β γ} (f : α → β) (p : β → Bool) (k : β → γ) (l : List α) :
+    ((l.map f).filter p).map k = (l.filter (p ∘ f)).map (k ∘ f) := by
+  rw [List.filter_map, List.map_map]
+
+/-- the control nodes fed by `u` are the enabled modules listing `u` as an input -/
+theorem ctrl_fed_by {g : Genome W} {netId : Int} {net : Net W} (hx : Expressed g netId net) (u : Int) :
+    (net.ctrl.filter fun cn => cn.incoming.any fun l => idAt net l.src == some u).map (fun cn => some cn.id) =
+      ((enabledMods g).filter fun m => m.ins.any fun w => w.node == u).map fun m => some m.ctrl.id := by
+  have h1 := filter_map_map (cview net) (fun c : CView W => c.ins.any fun e => e.src == some u) (fun c => some c.id) net.ctrl
+  have h2 := filter_map_map (mview (W := W)) (fun c : CView W => c.ins.any fun e => e.src == some u) (fun c => some c.id)
+    (enabledMods g)
+  rw [ctrl_views hx, h2] at h1
+  have e1 : ((fun c : CView W => c.ins.any fun e => e.src == some u) ∘ cview net) =
+      fun cn => cn.incoming.any fun l => idAt net l.src == some u := by
+    funext cn; simp only [Function.comp, cview, List.any_map]; rfl
+  have e2 : ((fun c : CView W => c.ins.any fun e => e.src == some u) ∘ mview (W := W)) =
+      fun m => m.ins.any fun w => w.node == u := by
+    funext m; simp only [Function.comp, mview, modIns, List.any_map]
+    congr 1
+  rw [e1, e2] at h1
+  exact h1.symm
+
+theorem ctrl_feeding {g : Genome W} {netId : Int} {net : Net W} (hx : Expressed g netId net) (v : Int) :
+    (net.ctrl.filter fun cn => cn.outgoing.any fun l => idAt net l.dst == some v).map (fun cn => some cn.id) =
+      ((enabledMods g).filter fun m => m.outs.any fun w => w.node == v).map fun m => some m.ctrl.id := by
+  have h1 := filter_map_map (cview net) (fun c : CView W => c.outs.any fun e => e.dst == some v) (fun c => some c.id) net.ctrl
+  have h2 := filter_map_map (mview (W := W)) (fun c : CView W => c.outs.any fun e => e.dst == some v) (fun c => some c.id)
+    (enabledMods g)
+  rw [ctrl_views hx, h2] at h1
+  have e1 : ((fun c : CView W => c.outs.any fun e => e.dst == some v) ∘ cview net) =
+      fun cn => cn.outgoing.any fun l => idAt net l.dst == some v := by
+    funext cn; simp only [Function.comp, cview, List.any_map]; rfl
+  have e2 : ((fun c : CView W => c.outs.any fun e => e.dst == some v) ∘ mview (W := W)) =
+      fun m => m.outs.any fun w => w.node == v := by
+    funext m; simp only [Function.comp, mview, modOuts, List.any_map]
+    congr 1
+  rw [e1, e2] at h1
+  exact h1.symm
+
+/-- looking a control node up by id = looking the enabled module up by its control id -/
+theorem ctrl_find {g : Genome W} {netId : Int} {net : Net W} (hx : Expressed g netId net) (u : Int) :
+    (net.ctrl.find? (·.id == u)).map (cview net) = ((enabledMods g).find? (·.ctrl.id == u)).map mview := by
+  have h1 : (net.ctrl.map (cview net)).find? (fun c => c.id == u) = (net.ctrl.find? (·.id == u)).map (cview net) := by
+    rw [List.find?_map]; rfl
+  have h2 : ((enabledMods g).map mview).find? (fun c : CView W => c.id == u) =
+      ((enabledMods g).find? (·.ctrl.id == u)).map mview := by
+    rw [List.find?_map]; rfl
+  rw [← h1, ← h2, ctrl_views hx]
+
+theorem from_spec_mod {g : Genome W} {netId : Int} {net : Net W} (hok : Ok g) (hx : Expressed g netId net) (u : Int) :
+    fromIds net u = specFrom g u := by
+  have hM := modsOk_of_ok hok
+  unfold fromIds nodeWithID allMIMO specFrom
+  rw [List.find?_append, ctrl_fed_by hx u]
+  cases hu : net.nodes.find? (·.id == u) with
+  | some nd =>
+    obtain ⟨hMem, hI⟩ := find_node hu
+    have hcn : (nodeIds' g).contains u = true := by
+      rw [List.contains_iff_mem]; exact mem_ids_of_find hx hu
+    have := (hx.links nd hMem).2
+    rw [hI] at this
+    simp only [Option.some_or, hcn, ↓reduceIte, ← this, List.map_map]
+    rfl
+  | none =>
+    have hua := find_node_none hx hu
+    have hcn : (nodeIds' g).contains u = false := by simpa using hua
+    have hnil : ((enabledMods g).filter fun m => m.ins.any fun w => w.node == u) = [] := by
+      rw [List.filter_eq_nil_iff]
+      intro m hm hany
+      obtain ⟨w, hw, hwu⟩ := List.any_eq_true.mp hany
+      exact hua ((by simpa using hwu : w.node = u) ▸ hM.ins m hm w hw)
+    simp only [Option.none_or, hcn, Bool.false_eq_true, ↓reduceIte, hnil, List.map_nil, List.append_nil]
+    have hf := ctrl_find hx u
+    cases hc : net.ctrl.find? (·.id == u) with
+    | none =>
+      rw [hc] at hf
+      cases hm : (enabledMods g).find? (·.ctrl.id == u) with
+      | none => rfl
+      | some m => rw [hm] at hf; simp at hf
+    | some cn =>
+      rw [hc] at hf
+      cases hm : (enabledMods g).find? (·.ctrl.id == u) with
+      | none => rw [hm] at hf; simp at hf
+      | some m =>
+        rw [hm] at hf
+        simp only [Option.map_some, Option.some.injEq] at hf
+        have houts : cn.outgoing.map (elink net) = modOuts m := by
+          have := congrArg CView.outs hf
+          simpa [cview, mview] using this
+        have : cn.outgoing.map (fun l => idAt net l.dst) = (cn.outgoing.map (elink net)).map (·.dst) := by
+          rw [List.map_map]; rfl
+        simp only [this, houts, modOuts, List.map_map]
+        rfl
+
+theorem to_spec_mod {g : Genome W} {netId : Int} {net : Net W} (hok : Ok g) (hx : Expressed g netId net) (v : Int) :
+    toIds net v = specTo g v := by
+  have hM := modsOk_of_ok hok
+  unfold toIds nodeWithID allMIMO specTo
+  rw [List.find?_append, ctrl_feeding hx v]
+  cases hu : net.nodes.find? (·.id == v) with
+  | some nd =>
+    obtain ⟨hMem, hI⟩ := find_node hu
+    have hcn : (nodeIds' g).contains v = true := by
+      rw [List.contains_iff_mem]; exact mem_ids_of_find hx hu
+    have := (hx.links nd hMem).1
+    rw [hI] at this
+    simp only [Option.some_or, hcn, ↓reduceIte, ← this, List.map_map]
+    rfl
+  | none =>
+    have hua := find_node_none hx hu
+    have hcn : (nodeIds' g).contains v = false := by simpa using hua
+    have hnil : ((enabledMods g).filter fun m => m.outs.any fun w => w.node == v) = [] := by
+      rw [List.filter_eq_nil_iff]
+      intro m hm hany
+      obtain ⟨w, hw, hwu⟩ := List.any_eq_true.mp hany
+      exact hua ((by simpa using hwu : w.node = v) ▸ hM.outs m hm w hw)
+    simp only [Option.none_or, hcn, Bool.false_eq_true, ↓reduceIte, hnil, List.map_nil, List.append_nil]
+    have hf := ctrl_find hx v
+    cases hc : net.ctrl.find? (·.id == v) with
+    | none =>
+      rw [hc] at hf
+      cases hm : (enabledMods g).find? (·.ctrl.id == v) with
+      | none => rfl
+      | some m => rw [hm] at hf; simp at hf
+    | some cn =>
+      rw [hc] at hf
+      cases hm : (enabledMods g).find? (·.ctrl.id == v) with
+      | none => rw [hm] at hf; simp at hf
+      | some m =>
+        rw [hm] at hf
+        simp only [Option.map_some, Option.some.injEq] at hf
+        have hins : cn.incoming.map (elink net) = modIns m := by
+          have := congrArg CView.ins hf
+          simpa [cview, mview] using this
+        have : cn.incoming.map (fun l => idAt net l.src) = (cn.incoming.map (elink net)).map (·.src) := by
+          rw [List.map_map]; rfl
+        simp only [this, hins, modIns, List.map_map]
+        rfl
+
 end
 
 end GoNeat.Genesis
